@@ -19,7 +19,7 @@ Quantified over: {p['quantifier']['text']}
 
 Your job: produce TWO independent, different changes (mutations) to the library *source* (files under konst/src, konst_kernel/src, konst_proc_macros/src — not tests) each of which BREAKS this property while
   (a) the workspace still compiles, and
-  (b) the existing test suite still passes: `cd {d} && CARGO_TARGET_DIR={d}/target cargo test --workspace --offline 2>&1 | grep -E "^test result|FAILED|failed"` — note 3 tests `konst::string::priv_string_tests::invalid_*` already fail at baseline and must be ignored; every other test that passes at baseline must still pass (doctests included). Run the suite on the unchanged tree first to learn the baseline.
+  (b) the existing test suite still passes: `cd {d} && CARGO_TARGET_DIR={d}/target cargo test --workspace --no-fail-fast --offline 2>&1 | grep -E "^test result|FAILED|failed"` — note 3 tests `konst::string::priv_string_tests::invalid_*` already fail at baseline and must be ignored; every other test that passes at baseline must still pass (doctests included). Run the suite on the unchanged tree first to learn the baseline.
 Each change must be *realistic* — the kind of slip a maintainer could make in a refactor or "optimisation": an off-by-one in cursor/offset arithmetic, a swapped end, a comparison `<` vs `<=`, a dropped or weakened guard, a wrong variable reused, state updated in the wrong order, two cooperating sites that each look fine alone — NOT simply deleting a function body or returning a constant. And each must need something *specific* to manifest: a particular unusual input (boundary value, multi-byte char, overlap structure, empty/odd length), a multi-step sequence of operations, a particular combination of arguments — not something that ordinary simple use would expose at once (otherwise the existing tests would catch it). The two changes should touch different functions / mechanisms if possible.{hint}
 
 For each change k in {{1,2}} deliver in {o}/:
